@@ -30,3 +30,14 @@ def register(reg):
         "segfaults and hangs of the compiled traversals are caught per shard.",
         "Trusted: the 10-line closed-interval overlap model. A hang is declared after 150 s in one history (typical: milliseconds).",
         "DESIGN.md section 4 C05")
+
+    reg("C01",
+        "runtime oracle monitor on gjk_distance_jolt results: closed-form membership oracles, exact constructed distances, independent reference solver with two-sided (feasible pair / separating slab) certificate; support-call recording proxies; bounds-check sanitizer shards",
+        "30 000 (quick) / 1 500 000 (thorough) ordered collider pairs covering all 100 type pairs (+Margin) in 12 placement "
+        "classes (exact gaps from 1e-7 L, exact touching, overlaps, deep/nested/same/copy, lattice, parallel, coplanar, far) are "
+        "queried through gjk.gjk / gjk_distance / gjk_distance_jolt; a in A, b in B, |a-b| = d, d within the certified interval, "
+        "d == 0 on certified overlap, d > 0 on certified gap, clipping only beyond sqrt(max_distance_squared). Two genuine, "
+        "rare numerical defects are keyed as known findings K10 (grazing contact) and K11 (degenerate final simplex).",
+        "Trusted: oracle closed forms; the reference interval is sound by construction and self-checked (witness membership). "
+        "Blind spots: point accuracy <= 5e-4 L at grazing results (K10); results whose final simplex is affinely degenerate (K11).",
+        "DESIGN.md section 4 C01")
